@@ -358,7 +358,7 @@ fn thread_stress(c: &mut Case, n_threads: usize, iters: usize) {
 }
 
 pub fn run(ctx: &Ctx, evidence: Option<&PathBuf>) -> i32 {
-    ctx.run_fixed("directed", 500, history);
+    ctx.run_fixed("directed", ctx.dn(500), history);
     let n = ctx.size(100_000, 10_000_000);
     ctx.run_cases("histories", n, history);
     let (runs, threads_n, iters) = match ctx.scale {
